@@ -41,7 +41,7 @@ UncPoolDef == << <<<<0, 1, 0, 0>>, <<0, 0, 2, 0>>>>,
 MCInit == Init /\ ans = Answers(InitEst)
 Group(op) == CASE op \in {"register_adaptation", "register_background_adaptation", "register_system_adaptation"} -> "K"
                [] op = "register_baseline" -> "baseline"
-               [] op \in {"register_bounds", "register_system", "register_uncertainty"} -> "system"
+               [] op \in {"register_bounds", "register_system", "register_system_bad", "register_uncertainty"} -> "system"
                [] op \in {"register_targets", "fit"} -> "targets"
                [] OTHER -> "query"
 (* re-registration histories: the clause "re-registering a value fully replaces the old one" *)
